@@ -3,6 +3,10 @@ package scen
 import (
 	"bytes"
 	"fmt"
+	"os"
+	"strings"
+	"sync"
+	"time"
 
 	abci "github.com/cometbft/cometbft/abci/types"
 	dbm "github.com/cosmos/cosmos-db"
@@ -85,7 +89,12 @@ func (w *l1World) runReplicas(bc blockCtx, raw [][]byte, stub []node.StubOp, res
 			q := rp.n.Querier()
 			_, _ = q.Bridges(rp.n.QueryCtx(), &ophosttypes.QueryBridgesRequest{})
 		}
-		rr, err := rp.n.Finalize(bc.Time, raw, stub)
+	}
+	outs := execReplicas(r, len(w.replicas), func(i int) (*abci.ResponseFinalizeBlock, error) {
+		return w.replicas[i].n.Finalize(bc.Time, raw, stub)
+	})
+	for i, rp := range w.replicas {
+		rr, err := outs[i].res, outs[i].err
 		if err != nil {
 			return w.fail(mismatch{"replica.block-error", "replica-block-error", []string{"C18"}, "replica failed to process the block: " + err.Error()})
 		}
@@ -99,7 +108,10 @@ func (w *l1World) runReplicas(bc blockCtx, raw [][]byte, stub []node.StubOp, res
 			}
 		}
 		if d := sameBlockOutput(res, rr); d != "" {
-			return w.fail(mismatch{"replica.diverged", "l1-replica-diverged:" + rp.kind, []string{"C18"}, fmt.Sprintf("L1 replica (%s) diverged at height %d: %s", rp.kind, bc.Height, d)})
+			return w.fail(mismatch{"replica.diverged", "l1-replica-diverged:" + rp.kind, []string{"C18"}, fmt.Sprintf("L1 replica (%s) diverged at height %d: %s [block: %s]", rp.kind, bc.Height, d, describeTxs(w.enc, raw))})
+		}
+		if d := sameErrors(res, rr); d != "" {
+			return w.fail(mismatch{"replica.error-diverged", "l1-replica-error-text:" + rp.kind, []string{"C18"}, fmt.Sprintf("L1 replica (%s) reported a different error at height %d: %s", rp.kind, bc.Height, d)})
 		}
 		rp.n.Commit()
 		ca, cb := w.n.QueryCtx(), rp.n.QueryCtx()
@@ -111,6 +123,69 @@ func (w *l1World) runReplicas(bc blockCtx, raw [][]byte, stub []node.StubOp, res
 	}
 	w.r.Probe("replica.compared")
 	return nil
+}
+
+type replicaOut struct {
+	res *abci.ResponseFinalizeBlock
+	err error
+}
+
+// replica nodes run under another local time zone than the main node (operators do
+// not agree on TZ), and in half of the blocks the replicas execute the block at the
+// same time on separate OS threads, as independent app instances of one process do:
+// nothing they compute may depend on either.
+var replicaZones = []*time.Location{time.FixedZone("KST", 9*3600), time.FixedZone("PDT", -7*3600)}
+
+func execReplicas(r *core.Run, n int, exec func(i int) (*abci.ResponseFinalizeBlock, error)) []replicaOut {
+	outs := make([]replicaOut, n)
+	one := func(i int) {
+		defer func() {
+			if x := recover(); x != nil {
+				outs[i].err = fmt.Errorf("panic: %v", x)
+			}
+		}()
+		outs[i].res, outs[i].err = exec(i)
+	}
+	saved := time.Local
+	defer func() { time.Local = saved }()
+	if os.Getenv("OPSIM_NO_TZ") != "" {
+		replicaZones = []*time.Location{saved}
+	}
+	if n > 1 && r.Chance(1, 2) {
+		r.Fault("replica.parallel-execution")
+		time.Local = replicaZones[0]
+		var wg sync.WaitGroup
+		for i := 0; i < n; i++ {
+			wg.Add(1)
+			go func(i int) { defer wg.Done(); one(i) }(i)
+		}
+		wg.Wait()
+		return outs
+	}
+	r.Fault("replica.time-zone-skew")
+	for i := 0; i < n; i++ {
+		time.Local = replicaZones[i%len(replicaZones)]
+		one(i)
+	}
+	return outs
+}
+
+// sameErrors compares the error texts of failed transactions (a recovered panic's
+// stack trace, which carries addresses and goroutine ids, is cut off).
+func sameErrors(a, b *abci.ResponseFinalizeBlock) string {
+	cut := func(s string) string {
+		if i := strings.Index(s, "\nstack:"); i >= 0 {
+			return s[:i]
+		}
+		return s
+	}
+	for i := range a.TxResults {
+		x, y := a.TxResults[i], b.TxResults[i]
+		if x.Code != 0 && cut(x.Log) != cut(y.Log) {
+			return fmt.Sprintf("tx %d: %q vs %q", i, firstLine(cut(x.Log)), firstLine(cut(y.Log)))
+		}
+	}
+	return ""
 }
 
 func firstStoreDiff(ca, cb sdk.Context, ka, kb interface{ Name() string }) string {
@@ -148,7 +223,12 @@ func (w *l2World) runReplicas(bc blockCtx, raw [][]byte, host []node.HostSetUpda
 			}
 			_, _ = rp.n.Querier().Validators(rp.n.QueryCtx(), &opchildtypes.QueryValidatorsRequest{})
 		}
-		rr, err := rp.n.Finalize(bc.Time, raw, host)
+	}
+	outs := execReplicas(r, len(w.replicas), func(i int) (*abci.ResponseFinalizeBlock, error) {
+		return w.replicas[i].n.Finalize(bc.Time, raw, host)
+	})
+	for i, rp := range w.replicas {
+		rr, err := outs[i].res, outs[i].err
 		if err != nil {
 			return w.fail(mismatch{"replica.block-error", "replica-block-error", []string{"C18"}, "replica failed to process the block: " + err.Error()})
 		}
@@ -161,7 +241,10 @@ func (w *l2World) runReplicas(bc blockCtx, raw [][]byte, host []node.HostSetUpda
 			}
 		}
 		if d := sameBlockOutput(res, rr); d != "" {
-			return w.fail(mismatch{"replica.diverged", "l2-replica-diverged:" + rp.kind, []string{"C18"}, fmt.Sprintf("L2 replica (%s) diverged at height %d: %s", rp.kind, bc.Height, d)})
+			return w.fail(mismatch{"replica.diverged", "l2-replica-diverged:" + rp.kind, []string{"C18"}, fmt.Sprintf("L2 replica (%s) diverged at height %d: %s [block: %s]", rp.kind, bc.Height, d, describeTxs(w.enc, raw))})
+		}
+		if d := sameErrors(res, rr); d != "" {
+			return w.fail(mismatch{"replica.error-diverged", "l2-replica-error-text:" + rp.kind, []string{"C18"}, fmt.Sprintf("L2 replica (%s) reported a different error at height %d: %s", rp.kind, bc.Height, d)})
 		}
 		rp.n.Commit()
 		ca, cb := w.n.QueryCtx(), rp.n.QueryCtx()
@@ -179,3 +262,28 @@ func (w *l2World) runReplicas(bc blockCtx, raw [][]byte, host []node.HostSetUpda
 }
 
 var _ = bytes.Equal
+
+// describeTxs names the message types of a block's transactions (for reports).
+func describeTxs(enc node.Encoding, raw [][]byte) string {
+	var out []string
+	for _, bz := range raw {
+		tx, err := enc.TxConfig.TxDecoder()(bz)
+		if err != nil {
+			out = append(out, "undecodable")
+			continue
+		}
+		var ms []string
+		for _, m := range tx.GetMsgs() {
+			ms = append(ms, sdk.MsgTypeURL(m))
+		}
+		memo := ""
+		if mt, ok := tx.(sdk.TxWithMemo); ok && mt.GetMemo() != "" {
+			memo = " memo=" + firstLine(mt.GetMemo())
+			if len(memo) > 60 {
+				memo = memo[:60] + "..."
+			}
+		}
+		out = append(out, strings.Join(ms, "+")+memo)
+	}
+	return strings.Join(out, "; ")
+}
